@@ -167,6 +167,8 @@ class NexusAdapter(object):
                 N[a["n"]].func = self._wrap(a["n"], a["g"], None)
             elif name == "AddDependency":
                 self.nexus.add_dependency(a["n"], a["m"])
+            elif name == "AddDependencyPair":
+                self.nexus.add_dependency(a["n"], [a["m1"], a["m2"]])
             elif name == "AddDependencyUnknown":
                 self.nexus.add_dependency(a["n"], "no_such_node")
             elif name == "ReplaceChild":
